@@ -114,9 +114,9 @@ Definition wf (s : st) : Prop := NoDup (keys (codes s)).
 Lemma wf_init t : wf (init t).
 Proof. constructor. Qed.
 
-Lemma step_wf cfg s o : wf s -> wf (fst (step cfg s o)).
+Lemma step_wf_core cfg s o : (forall r, o <> OFaultedReq r) -> wf s -> wf (fst (step cfg s o)).
 Proof.
-  unfold wf. intros Hw. destruct o as [r|path code ua|c|t| | |]; unfold step, step_gen.
+  unfold wf. intros Hnf Hw. destruct o as [r|path code ua|c|t| | | |fr]; unfold step, step_gen.
   - pose proof (handle_effect cfg s r) as H. cbn zeta in H. destruct (handle true cfg s r) as [s' x]. cbn [fst] in *.
     destruct H as [->|[(k & e & _ & ->)|[(bid & e & ->)|(bid & e & ->)]]]; cbn [codes set_reg]; auto.
     + apply nodup_insert; [exact E|exact Hw].
@@ -130,14 +130,15 @@ Proof.
   - cbn [fst sweep set_codes codes]. apply nodup_filterv; exact Hw.
   - exact Hw.
   - exact Hw.
+  - exfalso; eapply Hnf; reflexivity.
 Qed.
 
 (* an entry present after a step was there before, or this step minted it *)
-Lemma step_codes cfg s o k e :
-  wf s -> clk k (codes (fst (step cfg s o))) = Some e ->
+Lemma step_codes_core cfg s o k e :
+  (forall r, o <> OFaultedReq r) -> wf s -> clk k (codes (fst (step cfg s o))) = Some e ->
   clk k (codes s) = Some e \/ exists r, o = OReq r /\ minted_by cfg s r k e.
 Proof.
-  unfold wf. intros Hw. destruct o as [r|path code ua|c|t| | |]; unfold step, step_gen.
+  unfold wf. intros Hnf Hw. destruct o as [r|path code ua|c|t| | | |fr]; unfold step, step_gen.
   - pose proof (handle_effect cfg s r) as H. cbn zeta in H. destruct (handle true cfg s r) as [s' x]. cbn [fst] in *.
     destruct H as [->|[(k0 & e0 & Hm & ->)|[(bid & e0 & ->)|(bid & e0 & ->)]]]; cbn [codes set_reg]; auto.
     + intros H. destruct (N.eq_dec k k0) as [->|Hn].
@@ -153,15 +154,17 @@ Proof.
   - cbn [fst sweep set_codes codes]. intros H. apply clk_filterv_some in H; [left; apply H|exact Hw].
   - cbn; auto.
   - cbn; auto.
+  - exfalso; eapply Hnf; reflexivity.
 Qed.
 
 (* a member present after a step was there before, or this step joined it *)
-Lemma step_hub cfg s o m :
+Lemma step_hub_core cfg s o m :
+  (forall r, o <> OFaultedReq r) ->
   In m (hub (fst (step cfg s o))) ->
   In m (hub s) \/ exists path k ua e, o = OWs path (Some k) ua /\ joined_by cfg s path k ua e m /\
                                       snd (step cfg s o) = OutWs (WJoined m).
 Proof.
-  destruct o as [r|path code ua|c|t| | |]; unfold step, step_gen.
+  intros Hnf. destruct o as [r|path code ua|c|t| | | |fr]; unfold step, step_gen.
   - pose proof (handle_effect cfg s r) as H. cbn zeta in H. destruct (handle true cfg s r) as [s' x]. cbn [fst] in *.
     destruct H as [->|[(k0 & e0 & Hm & ->)|[(bid & e0 & ->)|(bid & e0 & ->)]]]; cbn [hub set_reg]; auto.
     unfold drop_booking. intros H. apply filter_In in H. left; apply H.
@@ -174,7 +177,52 @@ Proof.
   - cbn; auto.
   - cbn; auto.
   - cbn [fst set_hub hub]. intros H. apply filter_In in H. left; apply H.
+  - exfalso; eapply Hnf; reflexivity.
 Qed.
+
+(* the request during which the random source fails: either it minted nothing anyway and behaves as the plain
+   request, or its only trace is the register written before the fault *)
+Lemma faulted_step cfg s r :
+  (fst (step cfg s (OFaultedReq r)) = fst (step cfg s (OReq r)) /\
+   forall st k, snd (handle true cfg s r) <> Resp st (BUri k)) \/
+  (exists rg, fst (step cfg s (OFaultedReq r)) = set_reg s rg).
+Proof.
+  unfold step, step_gen. destruct (handle true cfg s r) as [s' x]. cbn [fst snd].
+  destruct x as [st b|]; [destruct b|]; cbn [fst]; try (left; split; [reflexivity|intros st' k' H; discriminate H]).
+  right. eauto.
+Qed.
+
+Lemma not_faulted_req r : forall r', OReq r <> OFaultedReq r'.
+Proof. intros r' H; discriminate H. Qed.
+
+Lemma step_wf cfg s o : wf s -> wf (fst (step cfg s o)).
+Proof.
+  intros Hw. destruct o as [r|path code ua|c|t| | | |fr]; try (apply step_wf_core; [intros r' H; discriminate H|exact Hw]).
+  destruct (faulted_step cfg s fr) as [[-> _]|[rg ->]]; [apply step_wf_core; [apply not_faulted_req|exact Hw]|exact Hw].
+Qed.
+
+Lemma step_codes cfg s o k e :
+  wf s -> clk k (codes (fst (step cfg s o))) = Some e ->
+  clk k (codes s) = Some e \/ exists r, o = OReq r /\ minted_by cfg s r k e.
+Proof.
+  intros Hw. destruct o as [r|path code ua|c|t| | | |fr]; try (apply step_codes_core; [intros r' H; discriminate H|exact Hw]).
+  destruct (faulted_step cfg s fr) as [[-> Hnb]|[rg ->]]; [|cbn; auto].
+  intros H. apply step_codes_core in H; [|apply not_faulted_req|exact Hw].
+  destruct H as [H|(r' & Hr & Hm)]; [left; exact H|exfalso]. inversion Hr; subst r'.
+  destruct Hm as (id & b & Hm). eapply Hnb. apply Hm.
+Qed.
+
+Lemma step_hub cfg s o m :
+  In m (hub (fst (step cfg s o))) ->
+  In m (hub s) \/ exists path k ua e, o = OWs path (Some k) ua /\ joined_by cfg s path k ua e m /\
+                                      snd (step cfg s o) = OutWs (WJoined m).
+Proof.
+  destruct o as [r|path code ua|c|t| | | |fr]; try (apply step_hub_core; intros r' H; discriminate H).
+  destruct (faulted_step cfg s fr) as [[-> _]|[rg ->]]; [|cbn; auto].
+  intros H. apply step_hub_core in H; [|apply not_faulted_req].
+  destruct H as [H|(path & k & ua & e & Ho & _)]; [left; exact H|discriminate Ho].
+Qed.
+
 
 (* ------------------------------------------------------------------ histories *)
 Lemma final_snoc cfg s ops o : final cfg s (ops ++ [o]) = fst (step cfg (final cfg s ops) o).
@@ -285,12 +333,15 @@ Qed.
 (* ------------------------------------------------------------------ a spent code stays dead *)
 Lemma step_next_code cfg s o : (next_code s <= next_code (fst (step cfg s o)))%N.
 Proof.
-  destruct o as [r|path code ua|c|t| | |]; unfold step, step_gen; try (cbn; lia).
+  destruct o as [r|path code ua|c|t| | | |fr]; unfold step, step_gen; try (cbn; lia).
   - pose proof (handle_effect cfg s r) as H. cbn zeta in H. destruct (handle true cfg s r) as [s' x]. cbn [fst] in *.
     destruct H as [->|[(k & e & _ & ->)|[(bid & e & ->)|(bid & e & ->)]]]; cbn; lia.
   - pose proof (ws_accept_cases cfg s path code ua) as H. cbn zeta in H.
     destruct (ws_accept cfg s path code ua) as [s' w]. cbn [fst snd] in *.
     destruct H as [(_ & _ & _ & -> & _)|(k & e & m & _ & _ & _ & ->)]; cbn; lia.
+  - pose proof (handle_effect cfg s fr) as H. cbn zeta in H. destruct (handle true cfg s fr) as [s' x]. cbn [fst] in *.
+    destruct x as [st b|]; [destruct b|]; cbn [fst set_reg next_code]; try lia;
+      destruct H as [->|[(k & e & _ & ->)|[(bid & e & ->)|(bid & e & ->)]]]; cbn; lia.
 Qed.
 
 Lemma step_keeps_dead cfg s o k :
@@ -340,24 +391,28 @@ Proof.
 Qed.
 
 (* ------------------------------------------------------------------ runs never fault *)
+Definition no_fault (ops : list op) : Prop := forall r, ~ In (OFaultedReq r) ops.
+
 Lemma run_outputs cfg s ops x :
-  In x (snd (run cfg s ops)) -> exists s1 o, x = snd (step cfg s1 o).
+  In x (snd (run cfg s ops)) -> exists s1 o, In o ops /\ x = snd (step cfg s1 o).
 Proof.
   revert s. induction ops as [|o ops IH]; intros s; [cbn; intros []|].
   unfold run. cbn [run_gen]. fold (step cfg s o).
   destruct (step cfg s o) as [s1 y] eqn:Hs. fold (run cfg s1 ops).
   destruct (run cfg s1 ops) as [s2 ys] eqn:Hr. cbn [snd]. intros [<-|Hin].
-  - exists s, o. rewrite Hs. reflexivity.
-  - apply (IH s1). rewrite Hr. exact Hin.
+  - exists s, o. split; [left; reflexivity|]. rewrite Hs. reflexivity.
+  - destruct (IH s1) as (s' & o' & Ho & Hx); [rewrite Hr; exact Hin|]. exists s', o'. split; [right; exact Ho|exact Hx].
 Qed.
 
-Lemma run_never_faults cfg s ops : ~ In (OutResp Panic) (snd (run cfg s ops)).
+(* as long as the environment does not fail (no entropy fault), no request of any history goes unanswered *)
+Lemma run_never_faults cfg s ops : no_fault ops -> ~ In (OutResp Panic) (snd (run cfg s ops)).
 Proof.
-  intros H. apply run_outputs in H. destruct H as (s1 & o & H).
-  destruct o as [r|path code ua|c|t| | |]; unfold step, step_gen in H; try (cbn in H; discriminate).
+  intros Hnf H. apply run_outputs in H. destruct H as (s1 & o & Ho & H).
+  destruct o as [r|path code ua|c|t| | | |fr]; unfold step, step_gen in H; try (cbn in H; discriminate).
   - pose proof (handle_answers cfg s1 r) as Ha. destruct (handle true cfg s1 r) as [s' x]. cbn [snd] in *.
     inversion H; subst; contradiction.
   - destruct (ws_accept cfg s1 path code ua); cbn in H; discriminate.
+  - exfalso. eapply Hnf; exact Ho.
 Qed.
 
 (* ------------------------------------------------------------------ path grammar: a plain topic is read back exactly *)
@@ -476,4 +531,21 @@ Proof.
   destruct Hj as (_ & _ & _ & _ & _ & _ & Hx & _).
   exists a, r, (b0 ++ OWs path (Some k) ua :: o2), b. split; [rewrite <- app_assoc; reflexivity|].
   split; [exact Hc|]. split; [rewrite Hx; exact He|exact Hg].
+Qed.
+
+(* ------------------------------------------------------------------ an entropy failure mints nothing *)
+Lemma faulted_mints_nothing cfg t ops r :
+  let s := reach cfg t ops in
+  let s' := fst (step cfg s (OFaultedReq r)) in
+  (forall k e, clk k (codes s') = Some e -> clk k (codes s) = Some e) /\
+  (forall m, In m (hub s') -> In m (hub s)) /\
+  (forall st k, snd (step cfg s (OFaultedReq r)) <> OutResp (Resp st (BUri k))).
+Proof.
+  cbn zeta. set (s := reach cfg t ops).
+  assert (Hw : wf s) by (apply final_wf; apply wf_init).
+  split; [|split].
+  - intros k e H. apply step_codes in H; [|exact Hw]. destruct H as [H|(r' & Hr & _)]; [exact H|discriminate Hr].
+  - intros m H. apply step_hub in H. destruct H as [H|(path & k & ua & e & Ho & _)]; [exact H|discriminate Ho].
+  - intros st k. unfold step, step_gen. destruct (handle true cfg s r) as [s' x].
+    destruct x as [st' b|]; [destruct b|]; cbn [snd]; intros H; inversion H.
 Qed.
